@@ -200,6 +200,33 @@ def raiser(env, kind, message):
 
         def f():
             ns["relay"](inner, message)
+    elif kind in ("latin1-file", "non-python-file"):
+        import importlib.util
+        import tempfile
+
+        d = tempfile.mkdtemp(prefix="c04_", dir=os.path.join(os.path.dirname(os.path.dirname(os.path.dirname(os.path.abspath(__file__)))), "out"))
+        Env.all_tempdirs = getattr(Env, "all_tempdirs", []) + [d]
+        if kind == "latin1-file":
+            # a module stored in Latin-1 with its coding cookie
+            path = os.path.join(d, "latin_%d.py" % os.getpid())
+            with open(path, "wb") as fh:
+                fh.write(u"# -*- coding: latin-1 -*-\ndef g(m):\n    s = 'caf\u00e9 \u00fcber'\n    raise ValueError(m)\n".encode("latin-1"))
+            spec = importlib.util.spec_from_file_location("c04_latin_%d" % (id(message) % 100000), path)
+            mod = importlib.util.module_from_spec(spec)
+            spec.loader.exec_module(mod)
+
+            def f():
+                mod.g(message)
+        else:
+            # a code object that names an existing file which is not Python (as template engines do)
+            path = os.path.join(d, "page_%d.html" % os.getpid())
+            with open(path, "w") as fh:
+                fh.write("<html>\n{{ it's broken \'\'\' }}\n<b>(\n</html>\n")
+            ns = {}
+            exec(compile("\n\ndef g(m):\n    raise ValueError(m)\n", path, "exec"), ns)
+
+            def f():
+                ns["g"](message)
     elif kind == "deleted-file":
         import importlib.util
         import tempfile
@@ -223,7 +250,7 @@ def raiser(env, kind, message):
 
 EXC_KINDS = ["ValueError", "KeyError", "custom-0", "custom-7", "custom-999", "custom-none", "custom-x", "custom-float", "custom-nan", "custom-true", "custom-neg",
              "custom-huge", "custom-decimal", "custom-fraction", "custom-method", "custom-absent", "library", "clikit-base", "interrupt",
-             "chain-from", "chain-implicit", "chain-same-message", "chain-context-message", "sourceless", "sourceless-markup-name", "sourceless-middle", "deleted-file"]
+             "chain-from", "chain-implicit", "chain-same-message", "chain-context-message", "sourceless", "sourceless-markup-name", "sourceless-middle", "deleted-file", "latin1-file", "non-python-file"]
 VERBOSITY = [[], ["-v"], ["-vv"], ["-vvv"]]
 LISTENERS = ["none", "passes", "handles-0", "handles-5", "handles-300", "handles-default", "raises"]
 
@@ -514,6 +541,16 @@ def plan(tier, seed):
 
 
 def run(sh, spec):
+    try:
+        _run(sh, spec)
+    finally:
+        import shutil
+
+        for d in getattr(Env, "all_tempdirs", []):
+            shutil.rmtree(d, ignore_errors=True)
+
+
+def _run(sh, spec):
     repo.activate()
     env = Env()
     rng = sh.rng
